@@ -91,7 +91,8 @@ type SimPeer struct {
 	addr *net.TCPAddr
 	up   bool
 	// view is the tip of the chain this node serves.
-	view *chainmodel.Block
+	view      *chainmodel.Block
+	pastViews []*chainmodel.Block
 	// claimHeight, if > 0, is advertised instead of view.Height.
 	claimHeight int32
 	services    wire.ServiceFlag
@@ -114,6 +115,15 @@ type SimPeer struct {
 	// message this node sent (reset by the scenario when it wants to know
 	// what was offered since some moment).
 	hdrTipsSent map[chainhash.Hash]bool
+	// liedWhenAsked: answered a getcfheaders whose range covers one of its
+	// lie heights.
+	liedWhenAsked bool
+	// liedStops: stop blocks of the getcfheaders queries it answered with
+	// a lie.
+	liedStops []*chainmodel.Block
+	// cfAsked: heights for which the client asked this node for filter
+	// headers.
+	cfAsked map[int32]bool
 
 	fhCache map[chainhash.Hash]chainhash.Hash // block hash -> this node's filter header
 	ffCache map[chainhash.Hash]*gcs.Filter
@@ -130,13 +140,45 @@ func (p *SimPeer) attach(c *simConn) {
 	p.sessions++
 }
 
+// setView moves the node to another tip. Like a real full node it keeps the
+// blocks of chains it was on before and still serves their data by hash.
+func (p *SimPeer) setView(b *chainmodel.Block) {
+	if p.view != nil && p.view != b && !p.view.IsAncestorOf(b) {
+		p.pastViews = append(p.pastViews, p.view)
+	}
+	p.view = b
+	p.fhCache = nil
+}
+
+// knows returns the block with hash h if it is on the node's chain or on a
+// chain it was on earlier.
+func (p *SimPeer) knows(h chainhash.Hash) *chainmodel.Block {
+	blk, ok := p.w.tree.ByHash[h]
+	if !ok {
+		return nil
+	}
+	if blk.IsAncestorOf(p.view) {
+		return blk
+	}
+	for _, v := range p.pastViews {
+		if blk.IsAncestorOf(v) {
+			return blk
+		}
+	}
+	return nil
+}
+
 // connected reports whether the node currently has a live connection.
 func (p *SimPeer) connected() bool { return p.conn != nil && !p.conn.dead() }
 
 // send schedules one message to the client according to the behaviour.
 func (p *SimPeer) send(msg wire.Message) { p.sendOpt(msg, false) }
 
-func (p *SimPeer) sendOpt(msg wire.Message, reliable bool) {
+func (p *SimPeer) sendOpt(msg wire.Message, reliable bool) { p.sendWith(msg, reliable, nil) }
+
+// sendWith is sendOpt with a callback that runs when (and only if) the message
+// is actually handed to the client.
+func (p *SimPeer) sendWith(msg wire.Message, reliable bool, delivered func()) {
 	c := p.conn
 	if c == nil || c.dead() || (p.silent && !reliable) {
 		return
@@ -164,6 +206,9 @@ func (p *SimPeer) sendOpt(msg wire.Message, reliable bool) {
 		}
 		w.rc.Logf("t=%s %s -> client: %s", w.clock(), p.addr.IP, describe(msg))
 		c.deliver(raw)
+		if delivered != nil {
+			delivered()
+		}
 	})
 	if !reliable && b.DupPct > 0 && w.tp.Chance(b.DupPct, 100) {
 		w.rc.Fault("net.dup")
@@ -483,7 +528,7 @@ func (p *SimPeer) onChain(h chainhash.Hash) *chainmodel.Block {
 }
 
 func (p *SimPeer) onGetCFCheckpt(m *wire.MsgGetCFCheckpt) {
-	stop := p.onChain(m.StopHash)
+	stop := p.knows(m.StopHash)
 	if stop == nil || m.FilterType != wire.GCSFilterRegular {
 		return // a node that does not know the block does not answer
 	}
@@ -502,7 +547,7 @@ func (p *SimPeer) onGetCFCheckpt(m *wire.MsgGetCFCheckpt) {
 }
 
 func (p *SimPeer) onGetCFHeaders(m *wire.MsgGetCFHeaders) {
-	stop := p.onChain(m.StopHash)
+	stop := p.knows(m.StopHash)
 	if stop == nil || m.FilterType != wire.GCSFilterRegular || int32(m.StartHeight) > stop.Height ||
 		stop.Height-int32(m.StartHeight) >= wire.MaxCFHeadersPerMsg {
 		return
@@ -514,16 +559,29 @@ func (p *SimPeer) onGetCFHeaders(m *wire.MsgGetCFHeaders) {
 	if m.StartHeight > 0 {
 		out.PrevFilterHeader = p.filterHeader(chain[m.StartHeight-1])
 	}
+	if p.cfAsked == nil {
+		p.cfAsked = map[int32]bool{}
+	}
+	lied := false
 	for h := int32(m.StartHeight); h <= stop.Height; h++ {
+		p.cfAsked[h] = true
+		if p.lieAt(chain[h]) != lieNone {
+			lied = true
+		}
 		_, fh := p.filterFor(chain[h])
 		hh := fh
 		out.AddCFHash(&hh)
 	}
-	p.send(out)
+	p.sendWith(out, false, func() {
+		if lied {
+			p.liedWhenAsked = true
+			p.liedStops = append(p.liedStops, stop)
+		}
+	})
 }
 
 func (p *SimPeer) onGetCFilters(m *wire.MsgGetCFilters) {
-	stop := p.onChain(m.StopHash)
+	stop := p.knows(m.StopHash)
 	if stop == nil || m.FilterType != wire.GCSFilterRegular || int32(m.StartHeight) > stop.Height ||
 		stop.Height-int32(m.StartHeight) >= wire.MaxGetCFiltersReqRange {
 		return
@@ -574,8 +632,8 @@ func cloneBlock(b *wire.MsgBlock) *wire.MsgBlock {
 }
 
 func (p *SimPeer) serveBlock(h chainhash.Hash) {
-	blk, ok := p.w.tree.ByHash[h]
-	if !ok {
+	blk := p.knows(h)
+	if blk == nil {
 		nf := wire.NewMsgNotFound()
 		nf.AddInvVect(wire.NewInvVect(wire.InvTypeBlock, &h))
 		p.send(nf)
